@@ -382,18 +382,22 @@ def hyperCall (eqT : EqType) (hyperparams : List String) (innerSpec : List Layer
   let inputs ← callInputs eqT args
   hyperEvalNN hyperparams innerSpec inT outT sl inputs p
 
-/-- `create_HYPERPINN` rewrites the hyper-network's `eqx_list`: the last entry's output size becomes
-    the number of parameters of the inner network, the first entry's input size becomes
-    `hypernet_input_size`.  When the last (resp. first) entry is an activation the code concatenates
-    the bare 1-tuple (`+ eqx_list_hyper[-1]`, `eqx_list_hyper[0] + …`), which puts a function where
-    `_MLP` expects a tuple: `TypeError` (`len()` of a function). -/
-def hyperArch (specs : List LayerSpec) (inSize nParams : Nat) : Except String (List LayerSpec) :=
-  match specs.reverse with
-  | .lin i _ :: rest =>
-    match (LayerSpec.lin i nParams :: rest).reverse with
-    | .lin _ o :: tl => .ok (.lin inSize o :: tl)
-    | _ => .error eType
-  | _ => .error eType
+/-- `create_HYPERPINN` rewrites the hyper-network's `eqx_list`: the output size of the last entry
+    (of the entry before it when the last one is an activation) becomes the number of parameters of
+    the inner network; then the input size of the first entry (of the second one when the first is an
+    activation) becomes `hypernet_input_size`.  Activations at either end are kept.
+    (Two activations in a row at an end are outside the model: `IndexError` at the front, a
+    mis-built layer at the back.) -/
+def hyperArch (specs : List LayerSpec) (inSize nParams : Nat) : Except String (List LayerSpec) := do
+  let lastDone ← match specs.reverse with
+    | .lin i _ :: rest => pure (LayerSpec.lin i nParams :: rest).reverse
+    | .act a :: .lin i _ :: rest => pure (LayerSpec.act a :: .lin i nParams :: rest).reverse
+    | _ => throw eUnmodelled
+  match lastDone with
+  | .lin _ o :: tl => pure (.lin inSize o :: tl)
+  | .act a :: .lin _ o :: tl => pure (.act a :: .lin inSize o :: tl)
+  | .act _ :: .act _ :: _ => throw eIndex
+  | _ => throw eUnmodelled
 
 /-! ## SPINN -/
 
